@@ -631,6 +631,32 @@ func OpenFile(name string, flag int, perm fs.FileMode) (*File, error) {
 			existed = false
 		}
 	}
+	// Opening a FIFO for reading only (or writing only) blocks in the kernel until the other end
+	// is opened. A real blocking system call is invisible to the scheduler, so the wait is
+	// simulated: the task parks until some open descriptor provides the other end (and an open
+	// that nobody will ever complete shows up as a deadlock instead of hanging the process).
+	if fi, e := os.Stat(name); e == nil && fi.Mode()&fs.ModeNamedPipe != 0 && flag&syscall.O_NONBLOCK == 0 {
+		acc := flag & (os.O_RDONLY | os.O_WRONLY | os.O_RDWR)
+		if acc != os.O_RDWR {
+			if _, t := simrt.Current(); t != nil {
+				other := func() bool {
+					st.mu.Lock()
+					defer st.mu.Unlock()
+					for g := range st.files {
+						if clean(g.name) != clean(name) {
+							continue
+						}
+						ga := g.flag & (os.O_RDONLY | os.O_WRONLY | os.O_RDWR)
+						if ga == os.O_RDWR || (acc == os.O_RDONLY && ga == os.O_WRONLY) || (acc == os.O_WRONLY && ga == os.O_RDONLY) {
+							return true
+						}
+					}
+					return false
+				}
+				simrt.Block("open:fifo", other)
+			}
+		}
+	}
 	rf, err := os.OpenFile(name, flag, perm)
 	if err != nil {
 		d.after(proc)
